@@ -196,6 +196,11 @@ def _np(t):
     return t.detach().cpu().numpy().astype(np.float64)
 
 
+def _at(d):
+    """index of the largest entry as plain ints (for messages)."""
+    return tuple(int(v) for v in np.unravel_index(int(np.argmax(d)), d.shape))
+
+
 # ------------------------------------------------------------------------------------------------
 # cases
 
@@ -248,7 +253,7 @@ def _run_radon(spec, idx, ctx):
     ref = np.stack([ctx.state["sk_radon"](masked[b].astype(np.float64), theta=theta_ref, circle=True).T for b in range(B)])  # (B,A,N)
     scale = float(np.max(np.abs(ref))) or 1.0
     d = np.abs(out - ref)
-    ctx.close(float(d.max()) / scale, TOL["radon"], "radon_mismatch", lambda: "N=%d B=%d angles=%s: worst at (b,angle,pixel)=%s angle=%.4f torch=%.6g skimage=%.6g scale=%.4g" % (n, B, spec["angles"], np.unravel_index(int(np.argmax(d)), d.shape), theta_ref[np.unravel_index(int(np.argmax(d)), d.shape)[1]], out.flat[int(np.argmax(d))], ref.flat[int(np.argmax(d))], scale), theta=spec["theta"], **common)
+    ctx.close(float(d.max()) / scale, TOL["radon"], "radon_mismatch", lambda: "N=%d B=%d angles=%s: worst at (b,angle,pixel)=%s angle=%.4f torch=%.6g skimage=%.6g scale=%.4g" % (n, B, spec["angles"], _at(d), theta_ref[_at(d)[1]], out.flat[int(np.argmax(d))], ref.flat[int(np.argmax(d))], scale), theta=spec["theta"], **common)
 
     # the port masks the image itself: the unmasked image must give the same sinogram
     out_raw, _ = _radon_call(ctx, raw, theta32)
@@ -354,7 +359,7 @@ def _run_iradon(spec, idx, ctx):
     if amb.any():
         ctx.count("iradon_boundary_pixels_not_judged", int(amb.sum()))
     d = np.abs(out - ref) * (~amb)[None]
-    ctx.close(float(d.max()) / scale, TOL["iradon"], "iradon_mismatch", lambda: "N=%d B=%d A=%d filter=%r circle=%s out=%s theta=%s: worst at (b,row,col)=%s torch=%.6g skimage=%.6g scale=%.4g" % (n, B, A, f, circle, osz, spec["theta"], np.unravel_index(int(np.argmax(d)), d.shape), out.flat[int(np.argmax(d))], ref.flat[int(np.argmax(d))], scale), **common)
+    ctx.close(float(d.max()) / scale, TOL["iradon"], "iradon_mismatch", lambda: "N=%d B=%d A=%d filter=%r circle=%s out=%s theta=%s: worst at (b,row,col)=%s torch=%.6g skimage=%.6g scale=%.4g" % (n, B, A, f, circle, osz, spec["theta"], _at(d), out.flat[int(np.argmax(d))], ref.flat[int(np.argmax(d))], scale), **common)
 
     if B > 1:
         per = np.concatenate([_iradon_call(ctx, sino32[b : b + 1], theta32, f, circle, osz)[0] for b in range(B)])
@@ -413,7 +418,7 @@ def _run_sirt(spec, idx, ctx):
     upd = new - start.astype(np.float64)
     scale = max(float(np.max(np.abs(upd_ref))), float(np.max(np.abs(start))), 1e-30)
     d = np.abs(upd - upd_ref) * good[None]
-    ctx.close(float(d.max()) / scale, TOL["sirt"], "sirt_update_mismatch", lambda: "N=%d D=%d A=%d filter=%r: worst at %s update=%.6g reference=%.6g scale=%.4g" % (n, D, A, f, np.unravel_index(int(np.argmax(d)), d.shape), upd.flat[int(np.argmax(d))], upd_ref.flat[int(np.argmax(d))], scale), **common)
+    ctx.close(float(d.max()) / scale, TOL["sirt"], "sirt_update_mismatch", lambda: "N=%d D=%d A=%d filter=%r: worst at %s update=%.6g reference=%.6g scale=%.4g" % (n, D, A, f, _at(d), upd.flat[int(np.argmax(d))], upd_ref.flat[int(np.argmax(d))], scale), **common)
     pscale = float(np.max(np.abs(est))) or 1.0
     pr = _np(proj)
     pr = pr[None] if pr.ndim == 2 else pr
@@ -435,3 +440,18 @@ def run_case(spec, idx, ctx):
             _run_iradon(spec, idx, ctx)
         else:
             _run_sirt(spec, idx, ctx)
+
+
+def summarize(all_cases, counters, extras):
+    worst = {}
+    for c in all_cases:
+        o = c["obs"]
+        if "worst_rel" in o and "n" in o:
+            key = "even_N" if o["n"] % 2 == 0 else "odd_N"
+            worst[key] = max(worst.get(key, 0.0), float(o["worst_rel"]))
+    return {
+        "worst_relative_deviation_from_skimage_by_parity": worst,
+        "sizes_covered": sorted({c["obs"]["n"] for c in all_cases if "n" in c["obs"]}),
+        "filter_sizes_covered": len({c["obs"]["size"] for c in all_cases if "size" in c["obs"]}),
+        "boundary_pixels_not_judged": int(counters.get("iradon_boundary_pixels_not_judged", 0)),
+    }
